@@ -199,3 +199,37 @@ fn clear_releases_under_lock_2() {
     std::mem::forget(s0);
     std::mem::forget(s1);
 }
+
+// unsubscribe() with two registered subscribers, symbolic target (unwind 5)
+#[kani::proof]
+#[kani::unwind(5)]
+fn unsubscribe_removes_exactly_target_2() {
+    let store = mk();
+    unsafe {
+        SUBS = Some(&*store.subscribers as *const _);
+    }
+    let s0: Arc<dyn Subscriber<u8, u8> + Send + Sync> = Arc::new(Probe(0));
+    let s1: Arc<dyn Subscriber<u8, u8> + Send + Sync> = Arc::new(Probe(1));
+    let h0 = store.add_subscriber(s0.clone());
+    let h1 = store.add_subscriber(s1.clone());
+    let first: bool = kani::any();
+    if first {
+        h0.unsubscribe();
+    } else {
+        h1.unsubscribe();
+    }
+    let t = if first { 0 } else { 1 };
+    unsafe {
+        let list = store.subscribers.lock().unwrap();
+        assert!(list.len() == 1, "[O-C09-k-unsub-removes-one C09] unsubscribe removes exactly one entry");
+        assert!(Arc::ptr_eq(&list[0], if first { &s1 } else { &s0 }), "[O-C09-k-unsub-keeps-others C09 C03 C07] the other subscriber stays registered");
+        assert!(RELEASED[t] == 1 && RELEASED[1 - t] == 0, "[O-C09-k-unsub-releases-once C09] the target gets on_unsubscribe exactly once, nobody else");
+        assert!(RELEASED_UNDER_LOCK[t] == 1, "[O-C09-k-release-under-lock C09 C04] unsubscribe() releases the subscriber while the subscribers lock is held, or after it has been taken off the list (atomic with its removal)");
+    }
+    kani::cover!(true, "harness reaches its end");
+    std::mem::forget(h0);
+    std::mem::forget(h1);
+    std::mem::forget(store);
+    std::mem::forget(s0);
+    std::mem::forget(s1);
+}
